@@ -137,3 +137,16 @@ reg("C14", "checks.history", dict(quick=1500, thorough=30000), dict(quick=55, th
 
 reg("C16", "checks.engine", dict(quick=2600, thorough=60000), dict(quick=55, thorough=900), "exploration", ENGINE_RULE
     + "; weak references to every call result are checked at every call start and every 'completed' notification")
+
+reg("C11", "checks.files", dict(quick=1500, thorough=40000), dict(quick=55, thorough=900), "fault_enumeration",
+    "one case = (store class or helper, str/pathlib path, prior state absent / old value with stamped mtime / old value "
+    "+ leftover .STAGING, value incl. values that fail to serialise part-way, buffer size); the write is executed "
+    "unfaulted to count its M raw file operations (open, each raw write, close, replace), then re-executed for EVERY "
+    "k <= M x every applicable fault kind (OSError, short write then OSError, os._exit before / after the syscall in a "
+    "forked child) on a real scratch directory; evaluations = writes executed; non-trivial = the write performs >= 3 "
+    "file operations; distinct = distinct (kind, prior, path type, size, buffer size, bad) tuples",
+    assumptions=["process death loses user-space buffers but keeps every completed syscall (no power-loss model: "
+                 "staged_write does not fsync and the property does not promise it)",
+                 "one fault per write (a second fault during clean-up is not injected)"],
+    technique="fault enumeration at every file-operation index under a syscall-level fault-injection layer (simkit.fs)",
+    chunk=8, recheck_every=0)
